@@ -126,7 +126,7 @@ theorem gather_self_range (l : List Nat) (n : Nat) (h : l.length = n) : gather l
   · intro k h1 h2
     simp [gather, List.getD_eq_getElem?_getD, h2]
 
-theorem gather_range (n : Nat) (r : List Nat) (h : ∀ a ∈ r, a < n) : gather (List.range n) r = r := by
+theorem gather_range_c (n : Nat) (r : List Nat) (h : ∀ a ∈ r, a < n) : gather (List.range n) r = r := by
   unfold gather
   conv => rhs; rw [← List.map_id r]
   apply List.map_congr_left
@@ -134,7 +134,7 @@ theorem gather_range (n : Nat) (r : List Nat) (h : ∀ a ∈ r, a < n) : gather 
   have := h a ha
   simp [List.getD_eq_getElem?_getD, this]
 
-theorem perm_range_facts {p : List Nat} {n : Nat} (hp : p.Perm (List.range n)) :
+theorem perm_range_facts_c {p : List Nat} {n : Nat} (hp : p.Perm (List.range n)) :
     p.length = n ∧ p.Nodup ∧ ∀ a, a ∈ p ↔ a < n :=
   ⟨by simpa using hp.length_eq, hp.nodup_iff.mpr List.nodup_range,
    fun a => by rw [hp.mem_iff, List.mem_range]⟩
@@ -142,9 +142,9 @@ theorem perm_range_facts {p : List Nat} {n : Nat} (hp : p.Perm (List.range n)) :
 theorem invPerm_length (p : List Nat) : (invPerm p).length = p.length := by simp [invPerm]
 
 /-- `x[p][argsort p] = x` -/
-theorem gather_gather_invPerm {p : List Nat} {n : Nat} (hp : p.Perm (List.range n)) (l : List Nat)
+theorem gather_gather_invPerm_c {p : List Nat} {n : Nat} (hp : p.Perm (List.range n)) (l : List Nat)
     (hl : l.length = n) : gather (gather l p) (invPerm p) = l := by
-  obtain ⟨hlen, hnd, hmem⟩ := perm_range_facts hp
+  obtain ⟨hlen, hnd, hmem⟩ := perm_range_facts_c hp
   refine Eq.trans ?_ (gather_self_range l n hl)
   unfold invPerm
   rw [hlen]
@@ -160,9 +160,9 @@ theorem gather_gather_invPerm {p : List Nat} {n : Nat} (hp : p.Perm (List.range 
   rw [this, List.getElem_idxOf]
 
 /-- `x[argsort p][p] = x` -/
-theorem gather_invPerm_gather {p : List Nat} {n : Nat} (hp : p.Perm (List.range n)) (l : List Nat)
+theorem gather_invPerm_gather_c {p : List Nat} {n : Nat} (hp : p.Perm (List.range n)) (l : List Nat)
     (hl : l.length = n) : gather (gather l (invPerm p)) p = l := by
-  obtain ⟨hlen, hnd, hmem⟩ := perm_range_facts hp
+  obtain ⟨hlen, hnd, hmem⟩ := perm_range_facts_c hp
   apply List.ext_getElem
   · rw [gather_length, hlen, hl]
   · intro k h1 h2
@@ -181,7 +181,7 @@ theorem gather_invPerm_gather {p : List Nat} {n : Nat} (hp : p.Perm (List.range 
 
 theorem invPerm_perm {p : List Nat} {n : Nat} (hp : p.Perm (List.range n)) :
     (invPerm p).Perm (List.range n) := by
-  obtain ⟨hlen, hnd, hmem⟩ := perm_range_facts hp
+  obtain ⟨hlen, hnd, hmem⟩ := perm_range_facts_c hp
   have h1 : p.map (fun a => p.idxOf a) = List.range n := by
     apply List.ext_getElem
     · simp [hlen]
@@ -197,24 +197,24 @@ theorem invPerm_perm {p : List Nat} {n : Nat} (hp : p.Perm (List.range n)) :
 theorem invPerm_invPerm {p : List Nat} {n : Nat} (hp : p.Perm (List.range n)) : invPerm (invPerm p) = p := by
   have hq := invPerm_perm hp
   have hqq := invPerm_perm hq
-  obtain ⟨hlen, _, hmem⟩ := perm_range_facts hp
-  obtain ⟨_, _, hmem2⟩ := perm_range_facts hqq
+  obtain ⟨hlen, _, hmem⟩ := perm_range_facts_c hp
+  obtain ⟨_, _, hmem2⟩ := perm_range_facts_c hqq
   -- read `range n` through both
-  have e1 : gather (List.range n) p = p := gather_range n p (fun a ha => (hmem a).mp ha)
+  have e1 : gather (List.range n) p = p := gather_range_c n p (fun a ha => (hmem a).mp ha)
   have e2 : gather (List.range n) (invPerm (invPerm p)) = invPerm (invPerm p) :=
-    gather_range n _ (fun a ha => (hmem2 a).mp ha)
+    gather_range_c n _ (fun a ha => (hmem2 a).mp ha)
   have hl : (gather (List.range n) p).length = n := by rw [gather_length, hlen]
-  have r1 := gather_gather_invPerm hp (List.range n) (by simp)
-  have a2 := gather_gather_invPerm hq (gather (List.range n) p) hl
+  have r1 := gather_gather_invPerm_c hp (List.range n) (by simp)
+  have a2 := gather_gather_invPerm_c hq (gather (List.range n) p) hl
   rw [r1] at a2
   rw [← e2, a2, e1]
 
-theorem InB_gather {i s : List Nat} (h : InB i s) : ∀ (p : List Nat), (∀ a ∈ p, a < s.length) →
+theorem InB_gather_c {i s : List Nat} (h : InB i s) : ∀ (p : List Nat), (∀ a ∈ p, a < s.length) →
     InB (gather i p) (gather s p)
   | [], _ => by simp [gather]
   | a :: p, hp => by
     rw [gather_cons, gather_cons, InB_cons]
-    refine ⟨?_, InB_gather h p (fun b hb => hp b (List.mem_cons_of_mem _ hb))⟩
+    refine ⟨?_, InB_gather_c h p (fun b hb => hp b (List.mem_cons_of_mem _ hb))⟩
     have ha := hp a List.mem_cons_self
     clear hp
     induction i generalizing s a with
@@ -247,12 +247,12 @@ theorem transposeCore_shape (x : COO α) (axes : List Nat) :
 theorem transposeCore_get (x : COO α) (axes : List Nat) (hp : axes.Perm (List.range x.shape.length))
     (hwf : x.WF) (hnd : (keysOf x.entries).Nodup) (j : Idx) (hj : InB j (gather x.shape axes)) :
     (x.transposeCore axes).get j = x.get (gather j (invPerm axes)) := by
-  obtain ⟨hlen, _, hmem⟩ := perm_range_facts hp
+  obtain ⟨hlen, _, hmem⟩ := perm_range_facts_c hp
   have hjl : j.length = x.shape.length := by rw [InB_length hj, gather_length, hlen]
   unfold transposeCore
   by_cases h : axes = List.range x.shape.length
   · simp only [h, if_true]
-    have := gather_gather_invPerm (h ▸ hp) j hjl
+    have := gather_gather_invPerm_c (h ▸ hp) j hjl
     rw [gather_self_range j _ hjl] at this
     rw [this]
   · simp only [h, if_false, COO.get]
@@ -261,13 +261,13 @@ theorem transposeCore_get (x : COO α) (axes : List Nat) (hp : axes.Perm (List.r
     · intro e he j' hg
       simp only [Option.some.injEq] at hg
       rw [← hg]
-      exact gather_gather_invPerm hp e.1 (InB_length (hwf e he))
+      exact gather_gather_invPerm_c hp e.1 (InB_length (hwf e he))
     · simp only [Option.some.injEq]
-      exact gather_invPerm_gather hp j hjl
+      exact gather_invPerm_gather_c hp j hjl
 
 theorem transposeCore_wf (x : COO α) (axes : List Nat) (hp : axes.Perm (List.range x.shape.length))
     (hwf : x.WF) : (x.transposeCore axes).WF := by
-  obtain ⟨_, _, hmem⟩ := perm_range_facts hp
+  obtain ⟨_, _, hmem⟩ := perm_range_facts_c hp
   unfold transposeCore
   by_cases h : axes = List.range x.shape.length
   · simp only [h, if_true]; exact hwf
@@ -275,7 +275,7 @@ theorem transposeCore_wf (x : COO α) (axes : List Nat) (hp : axes.Perm (List.ra
     intro e he
     simp only at he ⊢
     obtain ⟨e0, he0, rfl⟩ := List.mem_map.mp (mem_sortEntries.mp he)
-    exact InB_gather (hwf e0 he0) axes (fun a ha => (hmem a).mp ha)
+    exact InB_gather_c (hwf e0 he0) axes (fun a ha => (hmem a).mp ha)
 
 theorem transposeCore_nodup (x : COO α) (axes : List Nat) (hp : axes.Perm (List.range x.shape.length))
     (hwf : x.WF) (hnd : (keysOf x.entries).Nodup) : (keysOf (x.transposeCore axes).entries).Nodup := by
@@ -289,7 +289,7 @@ theorem transposeCore_nodup (x : COO α) (axes : List Nat) (hp : axes.Perm (List
     intro e he j' hg
     simp only [Option.some.injEq] at hg
     rw [← hg]
-    exact gather_gather_invPerm hp e.1 (InB_length (hwf e he))
+    exact gather_gather_invPerm_c hp e.1 (InB_length (hwf e he))
 
 /-! ### reshape keeps well-formedness and distinctness -/
 
@@ -373,7 +373,7 @@ theorem gLin_lt (x : COO Int) (caxes : List Nat)
     (hperm : (axisOrder x.shape.length caxes).Perm (List.range x.shape.length)) {k : Idx}
     (hk : InB k x.shape) : gLin x caxes k < csC x caxes * csR x caxes := by
   rw [csR_mul_csC]
-  exact ravel_lt (InB_gather hk _ (fun a ha => ((perm_range_facts hperm).2.2 a).mp ha))
+  exact ravel_lt (InB_gather_c hk _ (fun a ha => ((perm_range_facts_c hperm).2.2 a).mp ha))
 
 theorem csSorted_facts (x : COO Int) (caxes : List Nat) (hwf : x.WF)
     (hperm : (axisOrder x.shape.length caxes).Perm (List.range x.shape.length)) :
@@ -442,15 +442,15 @@ theorem nodup_map_on {β γ : Type} {f : β → γ} {l : List β}
 theorem gKey_inj (x : COO Int) (caxes : List Nat)
     (hperm : (axisOrder x.shape.length caxes).Perm (List.range x.shape.length)) {a b : Idx}
     (ha : InB a x.shape) (hb : InB b x.shape) (h : gKey x caxes a = gKey x caxes b) : a = b := by
-  have hmem := (perm_range_facts hperm).2.2
+  have hmem := (perm_range_facts_c hperm).2.2
   unfold gKey at h
   simp only [List.cons.injEq, and_true] at h
   have hm : gLin x caxes a = gLin x caxes b := by
     rw [← Nat.div_add_mod (gLin x caxes a) (csC x caxes), ← Nat.div_add_mod (gLin x caxes b) (csC x caxes),
       h.1, h.2]
-  have hg := ravel_inj (InB_gather ha _ (fun a ha => (hmem a).mp ha))
-    (InB_gather hb _ (fun a ha => (hmem a).mp ha)) hm
-  rw [← gather_gather_invPerm hperm a (InB_length ha), ← gather_gather_invPerm hperm b (InB_length hb), hg]
+  have hg := ravel_inj (InB_gather_c ha _ (fun a ha => (hmem a).mp ha))
+    (InB_gather_c hb _ (fun a ha => (hmem a).mp ha)) hm
+  rw [← gather_gather_invPerm_c hperm a (InB_length ha), ← gather_gather_invPerm_c hperm b (InB_length hb), hg]
 
 theorem gKey_InB (x : COO Int) (caxes : List Nat)
     (hperm : (axisOrder x.shape.length caxes).Perm (List.range x.shape.length)) {k : Idx}
@@ -514,7 +514,7 @@ theorem tocoo_fromCooCore (x : COO Int) (caxes : List Nat) (hwf : x.WF) (hnd : (
     (fromCooCore x caxes).tocoo.WF ∧ (keysOf (fromCooCore x caxes).tocoo.entries).Nodup ∧
     ∀ i, InB i x.shape → (fromCooCore x caxes).tocoo.get i = x.get i := by
   have hperm := axisOrder_perm x.shape.length caxes hcnd hclt
-  obtain ⟨hplen, _, hpmem⟩ := perm_range_facts hperm
+  obtain ⟨hplen, _, hpmem⟩ := perm_range_facts_c hperm
   rw [tocoo_fromCooCore_eq x caxes hwf hperm]
   obtain ⟨hes_in, hes_nd, hes_lk⟩ := csEs_facts x caxes hwf hnd hperm
   -- the 2-d COO
@@ -538,7 +538,7 @@ theorem tocoo_fromCooCore (x : COO Int) (caxes : List Nat) (hwf : x.WF) (hnd : (
   have hsh := transposeCore_shape ((COO.build [csR x caxes, csC x caxes] (csEs x caxes) x.fill false true false).reshapeCore
         (gather x.shape (axisOrder x.shape.length caxes))) (invPerm (axisOrder x.shape.length caxes))
   have hback : gather (gather x.shape (axisOrder x.shape.length caxes)) (invPerm (axisOrder x.shape.length caxes))
-      = x.shape := gather_gather_invPerm hperm x.shape rfl
+      = x.shape := gather_gather_invPerm_c hperm x.shape rfl
   refine ⟨?_, ?_, transposeCore_wf _ _ hqperm hy1wf, transposeCore_nodup _ _ hqperm hy1wf hy1nd, ?_⟩
   · rw [hsh.1, hy1sh.1, hback]
   · rw [hsh.2, hy1sh.2]; rfl
@@ -548,7 +548,7 @@ theorem tocoo_fromCooCore (x : COO Int) (caxes : List Nat) (hwf : x.WF) (hnd : (
       rw [hy1sh.1, hback]; exact hi
     rw [transposeCore_get _ _ hqperm hy1wf hy1nd i hi', invPerm_invPerm hperm]
     have hj : InB (gather i (axisOrder x.shape.length caxes)) (gather x.shape (axisOrder x.shape.length caxes)) :=
-      InB_gather hi _ (fun a ha => (hpmem a).mp ha)
+      InB_gather_c hi _ (fun a ha => (hpmem a).mp ha)
     rw [(SparseV.C08.reshape_get _ _ hc2.1 hsize _ hj).1, hc2shape]
     have hun : unravel (ravel (gather i (axisOrder x.shape.length caxes))
         (gather x.shape (axisOrder x.shape.length caxes))) [csR x caxes, csC x caxes] = gKey x caxes i := by
